@@ -86,7 +86,7 @@ theorem runOk_observeFn {s : St} (hg : Good s) (lrv : Nat) (k : Obs → P)
     · simp only [hn, if_false]
       cases hf : findObj s.objs r.kind r.name with
       | none =>
-        rw [runOk_call, exec_getObj_none hf]
+        rw [runOk_call, exec_getCached_none hf]
         simp only []
         rw [runOk_call, exec_getObj_none hf]
         simp only []
@@ -95,8 +95,20 @@ theorem runOk_observeFn {s : St} (hg : Good s) (lrv : Nat) (k : Obs → P)
         intro o ho hko
         exact absurd ((key_eq_iff o r.kind r.name).mp (by cases r; simpa [key] using hko)) (findObj_none hf o ho)
       | some o =>
-        rw [runOk_call, exec_getObj_some hf]
-        simp only []
+        -- in the cache, or missing from it and found by the live read: the same object either way
+        have hread : runOk (observeFn lrv (r :: rs) acc k) s =
+            runOk (if o.ctrl = .other then observeFn lrv rs acc k
+              else if o.annot = "" then onError lrv
+              else observeFn lrv rs (obsInsert acc o.annot o) k) s := by
+          simp only [observeFn, hn, if_false]
+          by_cases hmiss : (⟨r.kind, r.name⟩ : Ref) ∈ s.miss
+          · rw [runOk_call, exec_getCached_miss hmiss]
+            simp only []
+            rw [runOk_call, exec_getObj_some hf]
+          · rw [runOk_call, exec_getCached_some hf hmiss]
+        have hread' := hread
+        simp only [observeFn, hn, if_false] at hread'
+        rw [hread']
         obtain ⟨hm, hk1, hk2⟩ := findObj_some hf
         have hko : key o = r := by cases r; simp_all [key]
         by_cases hc : o.ctrl = .other
@@ -178,8 +190,11 @@ theorem exec_statusUpdate_ok (s : St) : exec s (.statusUpdate (some s.xrRv)) = (
   simp [exec]
 
 /-- **Quiescence (function composer).** From a settled store a fault-free reconcile, whatever
-map orders it happens to iterate in, returns `success` and leaves the store exactly as it
-was: every write it issues is a no-op (same references, same content, same resourceVersion). -/
+map orders it happens to iterate in and WHATEVER composed resources are missing from the
+informer cache (`s.miss` is arbitrary: a missed resource is found by the live fallback read, and
+no name is generated, so the cache is consulted for nothing else), returns `success` and leaves
+the store exactly as it was: every write it issues is a no-op (same references, same content,
+same resourceVersion). -/
 theorem quiescent_fn {s : St} {names : List Named} (h : Settled s names) (ch : Choices) (hc : ChOK ch)
     (hv : ch.ver = s.refsVer) :
     runOk (reconcile (.fn (fun _ => .desired (names.map (·.d))) ch)) s = (s, some .success) := by
